@@ -647,7 +647,11 @@ void QXmppTransferOutgoingJob::_q_disconnected()
         return;
     }
 
-    if (fileSize() && d->done != fileSize()) {
+    // without a known size, the file is complete once the device has been read to its end
+    const bool complete = fileSize()
+        ? d->done == fileSize()
+        : (d->state == QXmppTransferJob::TransferState && d->iodevice && d->iodevice->atEnd());
+    if (!complete) {
         terminate(QXmppTransferJob::ProtocolError);
     } else {
         terminate(QXmppTransferJob::NoError);
